@@ -829,3 +829,27 @@ Example set_read_only_leaks_refuted :
    | None => (WFree, Idle, Idle, E_no, None) end) = (WHeld (PCli 0), Idle, CL4, E_done, None) /\
   summary (run fixed init trace_D8) = Some (WFree, None, None, Ret, CL4).
 Proof. split; vm_compute; reflexivity. Qed.
+
+(* ------------------------------------------------------------------ the read-only branch of the compaction goroutines
+
+   CompactRange (client 1) has passed the write-lock stage and is about to send its range command; SetReadOnly
+   (client 0) switches the DB (compactionError enters its persistent-error state and owns the write lock);
+   the command is received by tCompaction, which takes the NEW edge T3 XRange -> TX (persistent error: start
+   nothing), acknowledges with the error and returns; CompactRange returns; Close then finds tCompaction gone,
+   mCompaction leaves on closeC, closeW.Wait returns and Close returns. *)
+Definition trace_ro_parks : list action :=
+  [ACli 1 5 0; ACli 1 1 0; ACli 1 0 0; ACli 1 2 0; ACli 1 0 0;
+   AT 1; AT 0; AT 1;
+   ACli 0 6 0; ACli 0 1 0; ACli 0 0 0; ACli 0 0 0; ACli 0 0 0;
+   ACli 1 0 0; AT 1; AT 1; ACli 1 0 0;
+   ACli 0 7 0; ACli 0 0 0; ACli 0 0 0; ACli 0 0 0; ACli 0 1 0; ACE 1; ACli 0 0 0; AM 0; AM 0;
+   ACli 0 0 0; ACli 0 0 0; ACli 0 0 0].
+Definition summary_bg (o : option state) :=
+  match o with Some s => Some (wl s, ce s, mc s, tc s, cli s 0, cli s 1) | None => None end.
+
+Example read_only_parks_compaction :
+  summary_bg (run fixed init (firstn 14 trace_ro_parks)) = Some (WHeld PCE, E_per, M0, T3 XRange, Idle, TrigW BT SCrT) /\
+  summary_bg (run fixed init (firstn 15 trace_ro_parks)) = Some (WHeld PCE, E_per, M0, TX, Idle, TrigW BT SCrT) /\
+  summary_bg (run fixed init (firstn 17 trace_ro_parks)) = Some (WHeld PCE, E_per, M0, TDone, Idle, Idle) /\
+  summary_bg (run fixed init trace_ro_parks) = Some (WClosed, E_done, MDone, TDone, Idle, Idle).
+Proof. repeat split; vm_compute; reflexivity. Qed.
